@@ -81,7 +81,7 @@ async def drive(c, tier, scripts, rnd):
                 dep.link_port = mbox.port
             await dep.start()
             cuts = [] if mbox is None else (["dark"] if quic else ["rst", "fin"])
-            end_cap = 40.0 if (quic and mbox) else 6.0
+            end_cap = 55.0 if (quic and mbox) else 6.0    # dark QUIC link: idle timeout (30 s) after the last keep-alive (every 10 s)
             sel = [s for s in rnd.sample(ending, min(per_conf * 3, len(ending)))
                    if mbox is not None or not any(st["op"] == "cut" for st in s)][:per_conf if not (quic and mbox) else 6]
             spec = []
@@ -90,7 +90,7 @@ async def drive(c, tier, scripts, rnd):
                     sc = [dict(st, how="dark") if st["op"] == "cut" else st for st in sc]
                 steps, reach = relayrun.concretise(sc, conf, rnd, big=big)
                 spec.append((steps, reach, KINDS[(i + ci) % 3], rnd.choice([1 << 16, 1 << 16, 4096, 1500])))
-            ev = await relayrun.run_batch(dep, spec, vlib.seed() * 1000 + ci, mbox=mbox, end_cap=end_cap, settle_cap=12.0 if not quic else 45.0)
+            ev = await relayrun.run_batch(dep, spec, vlib.seed() * 1000 + ci, mbox=mbox, end_cap=end_cap, settle_cap=12.0 if not quic else 60.0)
             batches.append(ev)
             c.add("replayed_scripts", len(spec))
             c.add("link_cuts", sum(1 for e in ev if e["ev"] == "Fault"))
@@ -104,7 +104,7 @@ async def drive(c, tier, scripts, rnd):
                 st = ending_script(rnd, cuts, big) if reach == "ok" else [("up", rnd.randint(1, 5000)), ("wait_end", "app")]
                 spec.append((st, reach, KINDS[i % 3], rnd.choice([1 << 16, 1 << 14, 1000])))
             ev = await relayrun.run_batch(dep, spec, vlib.seed() * 1000 + 500 + ci, fid0=1000, mbox=mbox, end_cap=end_cap,
-                                          settle_cap=12.0 if not quic else 45.0)
+                                          settle_cap=12.0 if not quic else 60.0)
             batches.append(ev)
             c.add("random_ending_flows", n)
             c.add("link_cuts", sum(1 for e in ev if e["ev"] == "Fault"))
@@ -112,7 +112,7 @@ async def drive(c, tier, scripts, rnd):
             n = 6 if quick else 16
             spec = [(relayrun.hold_script(rnd, big), "ok", KINDS[(i + ci) % 3], 1 << 16) for i in range(n)]
             ev = await relayrun.run_batch(dep, spec, vlib.seed() * 1000 + 700 + ci, fid0=2000, mbox=mbox, end_cap=end_cap,
-                                          settle_cap=12.0 if not quic else 45.0)
+                                          settle_cap=12.0 if not quic else 60.0)
             batches.append(ev)
             c.add("held_flows", n)
             # the end comes while the closing side's data is still backed up behind a slow reader
@@ -122,7 +122,7 @@ async def drive(c, tier, scripts, rnd):
                 if mbox is not None and not quic:
                     spec += [(relayrun.slow_link_script(rnd, d), "ok", KINDS[(i + ci) % 3], 1 << 16) for i, d in enumerate(["down", "up"])]
                 ev = await relayrun.run_batch(dep, spec, vlib.seed() * 1000 + 800 + ci, fid0=3000, mbox=mbox, end_cap=max(end_cap, 25.0),
-                                              settle_cap=12.0 if not quic else 45.0)
+                                              settle_cap=12.0 if not quic else 60.0)
                 batches.append(ev)
                 c.add("pressure_flows", len(spec))
         finally:
@@ -236,7 +236,7 @@ def run(tier):
         "loopback only; link failures are produced by a middlebox between client and server: reset of both link connections, orderly "
         "close of both, and (QUIC, thorough tier) silence until the 30 s idle timeout",
         "TcpRelay's timing assumption (maximal progress): the 2 s grace timer fires only when kernels and tasks have nothing left to do",
-        "bounded waits in the observer: 6 s for an end to be passed on (40 s behind a dark QUIC link), 12 s (45 s) for the socket counts "
+        "bounded waits in the observer: 6 s for an end to be passed on (55 s behind a dark QUIC link: 30 s idle timeout counted from the last of the keep-alive packets sent every 10 s), 12 s (60 s) for the socket counts "
         "of both processes to return to the idle baseline; poll-until-stable",
         "tasks are observed through the sockets they hold (/proc/<pid>/fd); a task that holds no descriptor is not visible",
     ]
